@@ -43,6 +43,8 @@ def gen_cases(rng, n):
 
 
 def main():
+    import astlib
+    astlib.AUTO_FUNCS = 0.2       # sqrt exp ln log pow at exact points in a fifth of the generated formulas
     rep = core.Report("C16")
     quick = core.tier() == "quick"
     F, pof = _c03.universe()
